@@ -71,9 +71,9 @@ Definition run_dict (x : cls * amap Z * dop) : J :=
   JL [dresJ r; itemsJ d; o].
 
 (* Dict.__call__ with free (Herbrand) callables: the value of key k is the term [k, arg1, ..., argn] *)
-Inductive citem := KConst (z : Z) | KFun (deps : list string).
+Inductive citem := KConst (z : Z) | KFun (params : list (string * option Z)).
 Definition to_item (k : string) (c : citem) : item (V := J) :=
-  match c with KConst z => IConst (JZ z) | KFun ds => IFun ds (fun vs => JL (JS k :: vs)) end.
+  match c with KConst z => IConst (JZ z) | KFun ps => IFun (map (fun p => (fst p, option_map JZ (snd p))) ps) (fun vs => JL (JS k :: vs)) end.
 Definition cresJ (c : cls) (r : cres (V := J)) : J :=
   match r with
   | COk m => JL [JS (cls_name c); JL (map (fun kv => JL [JS (fst kv); snd kv]) m)]
